@@ -161,6 +161,35 @@ Theorem c02_topdown_frame_count : forall c ans, (length (td_frame c ans) <= leng
 Proof. exact td_frame_count. Qed.
 Print Assumptions c02_topdown_frame_count.
 
+(* ---- F7: top-down with ground-truth centroids (centroid model = None, LabelsReader) *)
+(* as pinned, the crops are cut before the image is resized: refuted at scale 1/2 (answer ~ 2x) *)
+Theorem c02_topdown_gt_centroids_refuted :
+  exists c kps tl pts ms x y px py a,
+    td_gt_instance false c kps = Some (tl, pts, ms) /\
+    nth_error kps 0 = Some (Some (x, y)) /\ nth_error pts 0 = Some (Some (px, py), Some a) /\
+    in_band (aff_apply (tg_px (td_gt_geom false c)) x - fst tl) (td_osi c)
+            (ncells (tg_nix (td_geom c)) (td_osi c)) /\
+    half_cell (td_osi c) (td_si c) (tg_eff (td_geom c)) == 2 /\
+    20 < Qabs (px - x).
+Proof. exact td_gt_refuted. Qed.
+Print Assumptions c02_topdown_gt_centroids_refuted.
+
+(* with the crops cut after resizing (proposed_fixes/C02_F7.diff) the instance-stage bound holds *)
+Theorem c02_topdown_gt_centroids_fixed : forall c kps tl pts ms k x y px py a,
+  (0 < td_osi c)%Z -> 0 < td_si c -> 0 < tg_eff (td_geom c) ->
+  (0 < ncells (tg_nix (td_geom c)) (td_osi c))%Z -> (0 < ncells (tg_niy (td_geom c)) (td_osi c))%Z ->
+  td_gt_instance true c kps = Some (tl, pts, ms) ->
+  nth_error kps k = Some (Some (x, y)) ->
+  nth_error pts k = Some (Some (px, py), Some a) ->
+  in_band (aff_apply (tg_px (td_geom c)) x - fst tl) (td_osi c) (ncells (tg_nix (td_geom c)) (td_osi c)) ->
+  in_band (aff_apply (tg_py (td_geom c)) y - snd tl) (td_osi c) (ncells (tg_niy (td_geom c)) (td_osi c)) ->
+  Qabs (px - x) <= half_cell (td_osi c) (td_si c) (tg_eff (td_geom c))
+                   + reg_term (aff_apply (tg_px (td_geom c)) x) x (td_si c) (tg_eff (td_geom c)) /\
+  Qabs (py - y) <= half_cell (td_osi c) (td_si c) (tg_eff (td_geom c))
+                   + reg_term (aff_apply (tg_py (td_geom c)) y) y (td_si c) (tg_eff (td_geom c)).
+Proof. exact td_gt_fixed_within. Qed.
+Print Assumptions c02_topdown_gt_centroids_fixed.
+
 (* general position is necessary: a centroid exactly between two cells is not detected *)
 Theorem c02_plateau_no_local_peak : forall c g cent,
   is_tie (aff_apply (fst (tg_cx g)) (fst cent)) (td_osc c) (ncells (snd (tg_cx g)) (td_osc c)) = true ->
@@ -192,7 +221,7 @@ Theorem c02_eff_scale_positive : forall H W mh mw,
 Proof. exact sizematch_eff_pos. Qed.
 Print Assumptions c02_eff_scale_positive.
 
-(* ---- F7 (latent, unreachable through make_pipeline): the ground-truth-instances
+(* ---- latent twin of F7 (unreachable through make_pipeline): the ground-truth-instances
    branch of _predict_generator calls apply_resizer without the scale *)
 Theorem c02_gt_path_not_resized_refuted : exists n s, gt_path_resize_dim false n s <> resize_dim n s.
 Proof. exact gt_path_not_resized. Qed.
